@@ -64,12 +64,12 @@ def cases(tier):
                     G(f"rev/{ik}/{kind}/{dim}/{mkind}/n{n}/d{d0}", "reversible",
                       {"ikind": ik, "kind": kind, "dim": dim, "mkind": mkind, "n": n, "d0": d0})
     for solver in ("newton", "quasi_newton", "line_search"):
-        for mkind in ("identity", "diag") + (("dense",) if th else ()):
+        for mkind in (("identity", "diag", "dense") if th else ("identity", "diag")):
             for n_inner in (1, 2):
                 G(f"constrained/{solver}/{mkind}/inner{n_inner}", "constrained",
                   {"solver": solver, "mkind": mkind, "n_inner": n_inner, "n": 1}, timeout_s=1500)
-    for ik in ("implicit_leapfrog", "implicit_midpoint", "implicit_leapfrog_steffensen"):
-        for kind, dim, mkind in [("euclid", 1, "diag"), ("scalar", 1, "diag")] + ([("diagonal", 1, "diag"), ("scalar", 2, "diag")] if th else []):
+    for ik in ("implicit_leapfrog", "implicit_midpoint"):
+        for kind, dim, mkind in [("euclid", 1, "diag")] + ([("scalar", 1, "diag"), ("diagonal", 1, "diag"), ("scalar", 2, "diag")] if th else []):
             if ik.endswith("steffensen") and kind != "euclid":
                 continue
             G(f"series_rev/{ik}/{kind}/{dim}", "series_reversible", {"ikind": ik, "kind": kind, "dim": dim, "mkind": mkind, "n": 1},
